@@ -17,18 +17,38 @@ theorem failed_tx_keeps_store (n : Node K V C T H D) (tx : T)
     let n' := (deliverTx cfg hs e n tx).1
     n'.tree = n.tree ∧ n'.dlv.cache = n.dlv.cache ∧ n'.dlv.metered = n.dlv.metered ∧
     n'.dlv.gas.limit = n.dlv.gas.limit ∧ n'.chk = n.chk ∧ n'.idx = n.idx ∧ n'.height = n.height ∧
-    (lookupIdx n.idx (hs.hash tx) = none → n'.dlv.sess = none) := sorry
+    (lookupIdx n.idx (hs.hash tx) = none → n'.dlv.sess = none) := by
+  intro n'
+  cases h : lookupIdx n.idx (hs.hash tx) with
+  | some r =>
+    have hn : n' = n := by
+      show (deliverTx cfg hs e n tx).1 = n
+      rw [deliverTx_hit cfg hs e n tx r h]
+    rw [hn]
+    exact ⟨rfl, rfl, rfl, rfl, rfl, rfl, rfl, fun h' => by cases h'⟩
+  | none =>
+    have hn : n' = (deliverCore cfg hs e n tx).1 := by
+      show (deliverTx cfg hs e n tx).1 = _
+      rw [deliverTx_miss cfg hs e n tx h]
+    rw [deliverTx_miss cfg hs e n tx h] at hf
+    obtain ⟨f1, f2, f3, f4, _, f6, f7, f8, f9⟩ := deliverCore_frame cfg hs e n tx
+    rw [hn]
+    exact ⟨f1, f9 hf, f7, f8, f2, f3, f4, fun _ => f6⟩
 
 /-- if, in addition, deliver-path programs write no volatile cell, the running gas total is the
     only thing a failed transaction advances -/
 theorem failed_tx_noop (hnv : DeliverNoVset hs) (n : Node K V C T H D) (tx : T)
     (hs0 : n.dlv.sess = none) (hf : (deliverTx cfg hs e n tx).2.ok = false) :
-    ∃ d, ShiftNode d n (deliverTx cfg hs e n tx).1 := sorry
+    ∃ d, ShiftNode d n (deliverTx cfg hs e n tx).1 :=
+  deliverTx_failed_shift cfg hs e hnv n tx hs0 hf
 
 /-- a transaction that succeeded lands in the block cache through `CommitTxSession` only: the
     tree itself is never touched before Commit -/
 theorem deliver_never_touches_tree (n : Node K V C T H D) (tx : T) :
-    (deliverTx cfg hs e n tx).1.tree = n.tree := sorry
+    (deliverTx cfg hs e n tx).1.tree = n.tree := by
+  cases h : lookupIdx n.idx (hs.hash tx) with
+  | some r => rw [deliverTx_hit cfg hs e n tx r h]
+  | none => rw [deliverTx_miss cfg hs e n tx h]; exact (deliverCore_frame cfg hs e n tx).1
 
 /-- removing every failed transaction from a list of transactions yields the same results for
     the remaining ones and the same state up to the gas level -/
@@ -36,7 +56,8 @@ theorem remove_failed_deliverAll (hb : GasBlind cfg hs) (hnv : DeliverNoVset hs)
     (n : Node K V C T H D) (hs0 : n.dlv.sess = none) (txs : List T) :
     let r := deliverAll cfg hs e n txs
     let r' := deliverAll cfg hs e n (survivors txs r.2)
-    r'.2 = r.2.filter (·.ok) ∧ ∃ d, ShiftNode d r'.1 r.1 := sorry
+    r'.2 = r.2.filter (·.ok) ∧ ∃ d, ShiftNode d r'.1 r.1 :=
+  deliverAll_shift cfg hs e hb hnv txs 0 n n (ShiftNode.rfl0 n) hs0
 
 /-- block level: same surviving results, same commit write log (hence the same application
     hash), same tree and volatile memory -/
@@ -45,7 +66,14 @@ theorem remove_failed_same_block (hb : GasBlind cfg hs) (hhb : HooksGasBlind cfg
     let r := execBlock cfg hs e n txs
     let r' := execBlock cfg hs e n (survivors txs r.2.results)
     r'.2.results = r.2.results.filter (·.ok) ∧ r'.2.log = r.2.log ∧
-    r'.1.tree = r.1.tree ∧ r'.1.vol = r.1.vol ∧ r'.1.height = r.1.height := sorry
+    r'.1.tree = r.1.tree ∧ r'.1.vol = r.1.vol ∧ r'.1.height = r.1.height := by
+  have hb0 := (beginBlock_frame cfg hs e n).2.2.2
+  obtain ⟨h1, d, h2⟩ := deliverAll_shift cfg hs e hb hnv txs 0 _ _
+    (ShiftNode.rfl0 (beginBlock cfg hs e n)) hb0
+  have h3 := endBlock_shift cfg hs e hhb ha d _ _ h2
+  obtain ⟨c1, c2, c3⟩ := commit_shift cfg hs d _ _ h3
+  refine ⟨h1, ?_, c1.symm, c2.symm, c3.symm⟩
+  exact congrArg (fun t : Tree K V => t.log.drop n.tree.log.length) c1.symm
 
 /-! ## Non-vacuity -/
 
@@ -62,6 +90,6 @@ def exN : Node Nat Nat Nat Nat Nat Nat :=
 
 example : (deliverTx exCfg exH () exN 0).2.ok = false ∧ (deliverTx exCfg exH () exN 7).2.ok = true ∧
     (deliverTx exCfg exH () exN 7).1.dlv.cache = [(1, 7), (2, 7)] ∧
-    (deliverTx exCfg exH () exN 0).1.dlv.cache = [] := sorry
+    (deliverTx exCfg exH () exN 0).1.dlv.cache = [] := by decide
 
 end OLP.Props.C06
